@@ -452,6 +452,16 @@ def rule_memo(ctx, rid='C20.pure'):
             continue
         n += 1
         memo = [d for d in fi.decorators if d.split('(')[0] in MEMO]
+        if memo:
+            # a cache over immutable keys (a name, a number) is harmless; what goes stale is an answer read out of the state of the
+            # argument object: an attribute of a parameter, or a parameter handed to an introspecting / container-reading call
+            ps = set(fi.params) | {a.arg for a in fi.node.args.kwonlyargs}
+            reads = [norm(x)[:40] for x in ast.walk(fi.node) if isinstance(x, ast.Attribute) and isinstance(x.value, ast.Name) and x.value.id in ps]
+            reads += [norm(c)[:40] for c in U.calls(fi.node)
+                      if (norm(c.func).startswith('inspect.') or norm(c.func) in ('getattr', 'vars', 'dir', 'len', 'list', 'tuple', 'sorted', 'iter', 'dict'))
+                      and any(isinstance(a, ast.Name) and a.id in ps for a in c.args)]
+            if not reads:
+                memo = []
         ctx.ob(rid, f'{fi.fq}:not-memoised', not memo,
                f'{fi.qualname} is decorated with {memo}: its result for an object is frozen at first use and survives into later builds',
                fi.node, fi.module, nontrivial=bool(memo))
@@ -534,3 +544,9 @@ MUTANTS = [
 ]
 
 REPAIRS = []
+
+
+EQUIV = [
+    dict(name='a memoised table lookup over names (immutable keys) in sc3.synth', file='sc3/synth/synthdef.py',
+         old="class MetaSynthDef(type):\n", new="import functools\n\n\n@functools.lru_cache(maxsize=None)\ndef _rate_code(name):\n    return {'ir': 0, 'kr': 1, 'ar': 2, 'dr': 3}[name]\n\n\nclass MetaSynthDef(type):\n"),
+]
